@@ -106,8 +106,8 @@ pub(crate) fn rule_menus() -> Vec<RuleMenu> {
         },
         RuleMenu {
             name: "inject_global_value",
-            variants: vec!["identifier: 'G'", "identifier: 'G', value: true", "identifier: 'G', value: false", "identifier: 'G', value: 0", "identifier: 'G', value: 1.5", "identifier: 'G', value: 's'", "identifier: 'G', value: [1, 2]", "identifier: 'G', value: {a: 1}", "identifier: 'G', value: null", "identifier: 'H', value: 1", "identifier: 'G', value: Infinity", "identifier: 'G', value: -Infinity", "identifier: 'G', value: NaN", "identifier: 'G', value: [Infinity, 1]", "identifier: 'G', value: [null, 1]", "identifier: 'G', value: {a: NaN}", "identifier: 'G', value: {a: null}", "identifier: 'G', value: -1", "identifier: 'G', value: 1e300", "identifier: 'G', value: 9007199254740993"],
-            invalid: vec!["", "value: 1", "identifier: 1", "identifier: 'G', value: 1, env: 'X'", "identifier: 'G', value: 1, default_value: 2", "identifier: 'G', env: 'X', env_json: 'Y'", "identifier: 'G', value: 1, env_json: 'Y'", "identifier: 'G', env: 'X', env_json: 'Y', default_value: 1", "identifier: 'G', extra: 1", "identifer: 'G'"],
+            variants: vec!["identifier: 'G'", "identifier: 'G', value: true", "identifier: 'G', value: false", "identifier: 'G', value: 0", "identifier: 'G', value: 1.5", "identifier: 'G', value: 's'", "identifier: 'G', value: [1, 2]", "identifier: 'G', value: {a: 1}", "identifier: 'G', value: null", "identifier: 'H', value: 1", "identifier: 'G', value: Infinity", "identifier: 'G', value: -Infinity", "identifier: 'G', value: NaN", "identifier: 'G', value: [Infinity, 1]", "identifier: 'G', value: [null, 1]", "identifier: 'G', value: {a: NaN}", "identifier: 'G', value: {a: null}", "identifier: 'G', value: -1", "identifier: 'G', value: 1e300", "identifier: 'G', value: 1e20", "identifier: 'G', value: [1e20]", "identifier: 'G', value: 9007199254740993", "identifier: 'G', value: 18446744073709551615", "identifier: 'G', value: 0.5", "identifier: 'G', value: -2.5e-3"],
+            invalid: vec!["", "value: 1", "identifier: 1", "identifier: 'G', default_value: 5", "identifier: 'G', default_value: null", "identifier: 'G', value: 1, env: 'X'", "identifier: 'G', value: 1, default_value: 2", "identifier: 'G', env: 'X', env_json: 'Y'", "identifier: 'G', value: 1, env_json: 'Y'", "identifier: 'G', env: 'X', env_json: 'Y', default_value: 1", "identifier: 'G', extra: 1", "identifer: 'G'"],
             requires_properties: true,
         },
         RuleMenu { name: "remove_assertions", variants: vec!["", "preserve_arguments_side_effects: false", "preserve_arguments_side_effects: true"], invalid: vec!["preserve_arguments_side_effects: 'yes'", "preserve_arguments_side_effects: 1", "preserve: true"], requires_properties: false },
@@ -272,9 +272,10 @@ fn check_valid(text: &str, info: &std::sync::Mutex<Vec<(String, u128, String)>>)
                     }
                     (Err(e), _) | (_, Err(e)) => Some(e),
                 },
-                // the json5 crate writes a float without fraction as all its digits (1e300: 301 digits) and its own reader
+                // the json5 crate writes a float without fraction as all its digits (1e20: 21 digits, 1e300: 301 digits); its
+                // reader gives an integer beyond 64 bits as u128 (which serde's buffer for untagged enums cannot hold) and
                 // refuses integers beyond 128 bits: a defect of that crate's writer/reader pair, not of darklua's configuration types
-                Ok(Err(e)) if e.to_string().contains("number too large to fit in target type") => None,
+                Ok(Err(e)) if e.to_string().contains("number too large to fit in target type") || e.to_string().contains("as u128") => None,
                 Ok(Err(e)) => Some(format!("the JSON5 serialization cannot be read back: {}\n--- JSON5 text {}", e, s5)),
                 Err(p) => Some(format!("PANIC reading the JSON5 serialization: {}", p)),
             },
@@ -372,7 +373,7 @@ pub fn run(tier: Tier) -> Report {
         .to_owned();
     report.assumptions = vec![
         "property menus are transcribed from site/content/rules/*.md; every accepted configuration is serialized twice, with serde_json::to_string and with json5::to_string (the text the worker hashes to detect changes), and each text is read back and its behaviour compared".to_owned(),
-        "a float beyond 128 bits without fraction (1e300) is written by the json5 crate as all its digits, which the same crate refuses to read: that failure of the third-party writer/reader pair is not judged (the JSON round trip of the same configuration is)".to_owned(),
+        "a float of 2^64 or more without fraction (1e20, 1e300) is written by the json5 crate as all its digits, which the same crate reads as a 128-bit integer or refuses: that failure of the third-party writer/reader pair is not judged (the JSON round trip of the same configuration is)".to_owned(),
     ];
     let menus = rule_menus();
     let mut checks: Vec<Check> = Vec::new();
